@@ -51,6 +51,7 @@ def val_of(x, t):
 
 KEYS = {'A': ('a', 'b'), 'B': ('a', 'b'), 'D': ('x', 'y'), 'DI': (2, 10), 'L': (0, 1), 'T': (0, 1), 'NT': ('w', 'b')}
 
+FILTER_POOL = []      # list objects reused as nested filters across calls (rendering)
 RENDER = {}      # module kind -> real attribute names of this rendering (default: the specification's names)
 
 
@@ -258,6 +259,13 @@ def _replay(chk, h, idx, nnx, mods, vts):
     before = canon_real(root, nnx, mods, vts)
     if op == 'state':
       fs = [fmap[f] for f in e['fs']]
+      if idx % 5 == 4:      # rendering: every filter is a one-element list, and the list objects are reused (with other contents) by later calls
+        for i, flt in enumerate(fs):
+          if flt is not ...:
+            while len(FILTER_POOL) <= i:
+              FILTER_POOL.append([])
+            FILTER_POOL[i][:] = [flt]
+            fs[i] = FILTER_POOL[i]
       exp = [set((conv_path(kk, heap), t, (heap[i - 1]['val'] if i else 7)) for kk, i, t in g) for g in e['groups']]
       key = key0 + ':state:' + ','.join(e['fs'])
       # 'all' not last -> the API rejects it
@@ -295,6 +303,21 @@ def _replay(chk, h, idx, nnx, mods, vts):
           canon_real(root, nnx, mods, vts, ids_o)
           if ids_m & ids_o:
             return key, 'merge(split(g)) shares Modules / Variables with g'
+          # the states are inputs of merge / update: updating a graph with several of them leaves each state as it was
+          if len(states) >= 2:
+            snap = [group_of_state(st_, nnx, vts) for st_ in states]
+            try:
+              nnx.update(merged, *states)
+              nnx.update(merged, *states)
+              updated = True
+            except ValueError as ex:      # raw arrays inside containers cannot be updated at all: finding F8, judged by the Update action
+              if 'immutable node' not in str(ex):
+                return key, f'nnx.update(merge(split(g)), *states) raised ValueError: {str(ex)[:100]}'
+              updated = False
+            if [group_of_state(st_, nnx, vts) for st_ in states] != snap:
+              return key, 'nnx.update(g, s1, s2, ...) modified the states it was given (entries of one state appear in another)'
+            if updated and canon_real(merged, nnx, mods, vts) != cm:
+              return key, 'updating merge(split(g)) with its own states changed it'
         except ValueError as ex:
           if not exp[-1]:
             return key, f'nnx.split raised ValueError: {str(ex)[:100]}'
@@ -348,7 +371,14 @@ def _replay(chk, h, idx, nnx, mods, vts):
     elif op == 'pop':
       key = key0 + ':pop:' + e['f']
       try:
-        popped = nnx.pop(root, fmap[e['f']])
+        if idx % 2:      # rendering: a second filter that selects nothing - its State stays empty
+          nothing = lambda path, x: False
+          a_, b_ = nnx.pop(root, *((fmap[e['f']], nothing) if idx % 4 == 1 else (nothing, fmap[e['f']])))
+          popped, empty = (a_, b_) if idx % 4 == 1 else (b_, a_)
+          if list(nnx.to_flat_state(empty)):
+            return key, f'nnx.pop with two filters: the State of the filter that selects nothing holds {[tuple(p) for p, _ in nnx.to_flat_state(empty)]}'
+        else:
+          popped = nnx.pop(root, fmap[e['f']])
       except Exception as ex:
         return key, f'nnx.pop raised {type(ex).__name__}: {str(ex)[:100]}'
       got = set(tuple(p) for p, _ in nnx.to_flat_state(popped))
